@@ -138,6 +138,13 @@ func (c *Compressor) encode(ctx *EncodeContext, dst []byte, data []float64) []by
 
 	for i, v := range data {
 		if v == 0 {
+			if math.Signbit(v) {
+				// -0.0 is not the zero flag's +0.0: keep its bits
+				uncompressedCount++
+				ctx.bm.SetSkip(i)
+				dst = binary.BigEndian.AppendUint64(dst, math.Float64bits(v))
+				continue
+			}
 			ctx.bm.SetZero(i)
 			continue
 		}
@@ -235,15 +242,20 @@ func prepare(data []float64, ctx *EncodeContext) {
 
 	for i := range data {
 		v := data[i]
-		if i > 0 && v != data[i-1] {
+		// bit patterns, not float equality: -0.0 and +0.0 are different values to store
+		if i > 0 && math.Float64bits(v) != math.Float64bits(data[i-1]) {
 			ctx.repeatedBlockCount++
 		}
 
-		if v == 0 {
+		if v == 0 && !math.Signbit(v) {
 			allSkip = false
 			continue
 		}
 		allZero = false
+		if v == 0 {
+			// -0.0 is stored uncompressed
+			continue
+		}
 
 		if v < 0 {
 			v = -v
